@@ -51,7 +51,8 @@ type params struct {
 	Callers   [][]request       `json:"callers"`
 	SwitchDen int               `json:"switch_den"` // preempt with probability 1/SwitchDen at each yield
 	// FailMode says how a failing formatter run fails: "exit" = the process
-	// runs and exits non-zero (*exec.ExitError), "start" = it cannot be
+	// runs and exits non-zero (*exec.ExitError), "signal" = it is killed by a
+	// signal (*exec.ExitError with exit code -1), "start" = it cannot be
 	// started at all (*exec.Error / *fs.PathError: removed after the probe,
 	// bad interpreter, permission)
 	FailMode string `json:"fail_mode"`
@@ -105,7 +106,7 @@ func (c20) Generate(env *kernel.Env, r *kernel.Rand, index int) any {
 		n = r.Range(2, 3)
 	}
 	p.SwitchDen = kernel.Pick(r, []int{1, 1, 2, 3, 6})
-	p.FailMode = kernel.Pick(r, []string{"exit", "exit", "start"})
+	p.FailMode = kernel.Pick(r, []string{"exit", "exit", "start", "signal"})
 	// swarm: some runs hammer one format (maximal contention on one cache slot)
 	focus := -1
 	if r.Chance(1, 2) {
@@ -206,6 +207,20 @@ func realExitError() error {
 	return cachedExitErr
 }
 
+var cachedSignalErr error
+
+// realSignalError returns the genuine error of a process killed by a signal
+// (exit code -1 in its ProcessState).
+func realSignalError() error {
+	if cachedSignalErr == nil {
+		cachedSignalErr = exec.Command("/bin/sh", "-c", "kill -9 $$").Run()
+		if cachedSignalErr == nil {
+			cachedSignalErr = exitErr{-1}
+		}
+	}
+	return cachedSignalErr
+}
+
 type exitErr struct{ code int }
 
 func (e exitErr) Error() string { return fmt.Sprintf("exit status %d", e.code) }
@@ -244,6 +259,10 @@ func (w *world) exec(name string, args []string, dir string) ([]byte, error) {
 		if w.p.FailMode == "start" {
 			w.out.Fault("tool_run_cannot_start")
 			return nil, &fs.PathError{Op: "fork/exec", Path: "/usr/bin/" + tool, Err: syscall.ENOENT}
+		}
+		if w.p.FailMode == "signal" {
+			w.out.Fault("tool_run_killed_by_signal")
+			return nil, realSignalError()
 		}
 		w.out.Fault("tool_run_fails")
 		return []byte("syntax error"), realExitError()
